@@ -4,7 +4,7 @@ lookup_register / REGISTERS (Gen.Encoders).  Correspondence + falsifier: tools/f
 import frontend_engine as fe
 import harness
 
-GEN_UNITS = ['Encoders']
+GEN_UNITS = ['Encoders', 'Criteria', 'Pseudo', 'PassTable', 'ParseTable']   # the whole model of asm.assemble (C13_whole_*)
 EXES = []
 ASSUMPTIONS = ['source lines of printable ASCII and tabs (the character-list model); multi-token offsets in the imm(reg) '
                'form are not a documented freedom and are not generated']
@@ -18,6 +18,7 @@ CLAIM = dict(
          'C13_imm_reg_loads/stores: imm(reg) and reg, imm parse to the SAME item for exactly the mnemonics of the generated '
          'BASE_OFFSET_INSTRUCTIONS table; C13_program: line-by-line token-equal versions of a program give the same result of the '
          'whole model (lex + parse + 16 passes), both modes ; C13_line_numbers_irrelevant: renaming the lines of the items by ANY function (what extra blank / comment lines do to the physical numbers) leaves bytes, labels and constants unchanged, errors name the renamed line (assemble_relabel through all 16 passes). Tie: model tokens / items vs the '
+         'C13_whole_tokens(_modulo_comment_lines): on the whole model (reader + lexer + parser + passes) the result depends only on the token lists of the token-bearing lines read -- not on separators, comments, comment-only or blank lines, file names, line numbers or the distribution over included files. Tie: '
          'real lex_tokens / parse_item on generated and hand-picked lines. Falsifier: gen_programs x per-line / per-operand '
          'rewrites, bytes + labels, both modes.',
     note='lexer, parser, int(s,0) models are hand-written and tied by differential evaluation only',
